@@ -833,7 +833,6 @@ func (e *Exec) split(st *State, s, sep *Str, limit int) Outcome {
 	return Outcome{Kind: OutAlts, Alts: alts}
 }
 
-
 // ---------------------------------------------------------------- misc natives
 
 func inParseFloat(e *Exec, st *State, ci *CallInfo) Outcome {
